@@ -7,9 +7,9 @@ import (
 	"sort"
 	"strings"
 	"sync"
+	"sync/atomic"
 	"testing"
 	"testing/synctest"
-	"time"
 
 	"pgregory.net/rapid"
 
@@ -198,11 +198,12 @@ func TestC17ConcurrentFirstAccess(t *testing.T) {
 		// never released) cannot be seen from inside the bubble, where
 		// time is fake and sync.Mutex waits do not count as blocked: a
 		// real-time watchdog outside the bubble reports it.
-		watchdog := time.AfterFunc(150*time.Second, func() {
-			fmt.Printf("VERIF-VIOLATION property=C17 check=inputroot-concurrent-first-access: the concurrent first accesses of one directory did not all return within 150 s of real time (a caller is stuck); script=%s\n", jsonOf(hdr))
+		var caseProgress atomic.Uint64
+		stopWatchdog := simkit.StallWatchdog(&caseProgress, 150, func() {
+			fmt.Printf("VERIF-VIOLATION property=C17 check=inputroot-concurrent-first-access: the concurrent first accesses of one directory did not all return during 150 s in which this process was running (a caller is stuck); script=%s\n", jsonOf(hdr))
 			os.Exit(1)
 		})
-		defer watchdog.Stop()
+		defer stopWatchdog()
 		synctest.Test(t, func(_ *testing.T) {
 			var lot *parkingLot
 			defer func() {
